@@ -637,3 +637,91 @@ func TestC05GroupByTuple(t *testing.T) {
 	}
 	vWriteJSON(t, "VERIF_OUT", map[string]interface{}{"evaluations": evals, "bad": bads})
 }
+
+// A csv cell is the value of the column's field, whatever its text - the empty text included: the same rows written as
+// csv ("a,,3") and as key=value pairs ("g=a|v=|n=3") must give the same result for queries that count the field, take
+// its last value or its length, or compare it with "".  (Both formats on two servers each, real client merge.)
+func TestC05CsvEmptyCells(t *testing.T) {
+	vInit("none")
+	c05Install()
+	dir, _ := os.MkdirTemp("", "c05e-")
+	defer os.RemoveAll(dir)
+	rng := rand.New(rand.NewSource(vSeed()))
+	type bad struct {
+		Query string     `json:"query"`
+		Rows  []string   `json:"rows"`
+		KV    [][]string `json:"generickv_result"`
+		CSV   [][]string `json:"csv_result"`
+	}
+	var bads []bad
+	evals := 0
+	queries := []string{
+		"select g,count(v),count($line) group by g order by g",
+		"select g,last(v),len(v) group by g order by g",
+		"select g,count($line),sum(n) where v eq \"\" group by g order by g",
+		"select g,count($line),max(n) where v ne \"\" group by g order by g",
+		"select v,count($line) group by v order by count($line)",
+	}
+	for round := 0; round < 4; round++ {
+		type row struct{ g, v, n string }
+		var rows []row
+		for i := 0; i < 12; i++ {
+			rows = append(rows, row{[]string{"a", "b", "c"}[rng.Intn(3)], []string{"", "", "x", "7"}[rng.Intn(4)], strconv.Itoa(i + 1)})
+		}
+		for _, q := range queries {
+			var results [][][]string
+			var shown []string
+			for _, format := range []string{"generickv", "csv"} {
+				outfile := filepath.Join(dir, fmt.Sprintf("e%d_%s.csv", round, format))
+				os.Remove(outfile)
+				qs := q + " logformat " + format + " outfile \"" + outfile + "\""
+				query, err := mapr.NewQuery(qs)
+				if err != nil {
+					t.Fatal(err)
+				}
+				var lines []string
+				for _, r := range rows {
+					if format == "csv" {
+						lines = append(lines, r.g+","+r.v+","+r.n)
+					} else {
+						lines = append(lines, "g="+r.g+"|v="+r.v+"|n="+r.n)
+					}
+				}
+				shown = lines
+				header := ""
+				if format == "csv" {
+					header = "g,v,n"
+				}
+				m1, p1 := c05Server(qs, [][]string{lines[:7]}, header)
+				m2, p2 := c05Server(qs, [][]string{lines[7:]}, header)
+				if p1 != "" || p2 != "" {
+					t.Fatal(p1 + p2)
+				}
+				global := mapr.NewGlobalGroupSet()
+				c1 := client.NewAggregate("server1", query, global)
+				c2 := client.NewAggregate("server2", query, global)
+				for _, m := range m1[0] {
+					c1.Aggregate(m)
+				}
+				for _, m := range m2[0] {
+					c2.Aggregate(m)
+				}
+				if err := global.WriteResult(query, true); err != nil {
+					t.Fatal(err)
+				}
+				data, _ := os.ReadFile(outfile)
+				var out [][]string
+				for _, l := range strings.Split(strings.TrimRight(string(data), "\n"), "\n")[1:] {
+					out = append(out, strings.Split(l, ","))
+				}
+				sort.Slice(out, func(i, j int) bool { return strings.Join(out[i], ",") < strings.Join(out[j], ",") })
+				results = append(results, out)
+			}
+			evals++
+			if fmt.Sprint(results[0]) != fmt.Sprint(results[1]) {
+				bads = append(bads, bad{q, shown, results[0], results[1]})
+			}
+		}
+	}
+	vWriteJSON(t, "VERIF_OUT", map[string]interface{}{"evaluations": evals, "bad": bads})
+}
